@@ -33,7 +33,19 @@ for l in open(wt+'/_confirm/suite_with.log',errors='replace'):
         res[name]=m.group(2)
 failed_stable=[n for n in stable if res.get(n) not in ('ok',)]
 missing=[n for n in stable if n not in res]
-out={'demo_with_patch_rc':w,'demo_without_patch_rc':wo,'stable_total':len(stable),'stable_not_ok':sorted(failed_stable),'stable_missing':len(missing),'all_failed':sorted(n for n,v in res.items() if v=='FAILED')}
+# load-induced timeouts: run each not-ok stable test again on its own (patch still applied) before counting it
+import subprocess
+still=[]
+for nme in sorted(failed_stable):
+    parts=nme.split('::')
+    if len(parts)<3: still.append(nme); continue
+    binn,test=parts[1],'::'.join(parts[2:])
+    r=subprocess.run(['cargo','test','-p','dust_dds','--offline','--test',binn,'--',test,'--exact'],cwd=wt,capture_output=True,text=True)
+    if r.returncode!=0 and 'no test target named' in r.stderr:
+        r=subprocess.run(['cargo','test','-p','dust_dds','--offline','--lib','--','::'.join(parts[1:]),'--exact'],cwd=wt,capture_output=True,text=True)
+    if r.returncode!=0: still.append(nme)
+retried=sorted(failed_stable); failed_stable=still
+out={'retried_alone':retried,'demo_with_patch_rc':w,'demo_without_patch_rc':wo,'stable_total':len(stable),'stable_not_ok':sorted(failed_stable),'stable_missing':len(missing),'all_failed':sorted(n for n,v in res.items() if v=='FAILED')}
 json.dump(out,open(wt+'/_confirm/result.json','w'),indent=1)
 print(json.dumps(out)[:1500])
 PY
